@@ -340,7 +340,7 @@ fn urls() -> BoxedStrategy<String> {
 pub fn strategy() -> BoxedStrategy<Case> {
     let name = prop_oneof![3 => "[a-z][a-z0-9-]{0,8}", 2 => Just("x-a".to_string()), 1 => Just("X-A".to_string()), 2 => Just("accept".to_string()), 1 => Just("Accept".to_string()), 1 => Just("authorization".to_string()), 1 => Just("content-type".to_string()), 1 => Just("Content-Type".to_string())];
     let value = prop_oneof![4 => "[!-~][ -~]{0,12}", 1 => Just(String::new()), 1 => Just("text/plain; charset=utf-8".to_string())];
-    let header = (name, prop::collection::vec(value, 1..3));
+    let header = (name, prop_oneof![6 => prop::collection::vec(value.clone(), 1..3), 1 => prop::collection::vec(value, 3..7)]);
     let json = prop_oneof![Just("{\"a\":[1,\"é\",null],\"b\":{\"c\":1.5}}".to_string()), Just("[]".to_string()), Just("\"s\"".to_string()), Just("{\"z\":1,\"a\":2}".to_string())];
     let body = prop_oneof![
         2 => Just(BodySpec::None),
@@ -356,7 +356,8 @@ pub fn strategy() -> BoxedStrategy<Case> {
         any::<bool>(),
         0u8..9,
         urls(),
-        prop::collection::vec(header, 0..5),
+        // (more header lines than any sorting or hashing threshold a test stays under)
+        prop_oneof![14 => prop::collection::vec(header.clone(), 0..5), 1 => prop::collection::vec(header, 30..70)],
         body,
         proptest::option::weighted(0.2, ct.clone()),
         proptest::option::weighted(0.2, ct),
@@ -446,7 +447,7 @@ pub fn main(mode: Mode) {
                 Report {
                     prop,
                     tier,
-                    rule: "request descriptions: 9 methods; URLs built from components (scheme, ASCII/IDN/IP/userinfo hosts, default and explicit ports, path segments with unicode, percent-escapes and dot segments, queries, fragments); 0-4 header replacements with 1-2 values each over repeated and mixed-case names; body none/string/bytes (up to 9 kB)/JSON value/typed JSON struct (unordered fields, f32, nested, renamed)/form/reader with known or unknown length, given through the dedicated body_* methods or through the generic body(); each method's own constructor or request(method, url); typed content type before or after the body; optional query struct; command API and capability API; non-trivial = >= 2 distinct header names with a multi-valued one, a body, and non-ASCII in URL or body; distinct = distinct case",
+                    rule: "request descriptions: 9 methods; URLs built from components (scheme, ASCII/IDN/IP/userinfo hosts, default and explicit ports, path segments with unicode, percent-escapes and dot segments, queries, fragments); 0-4 (one case in 15: 30-69) header replacements with 1-2 (one in 7: 3-6) values each over repeated and mixed-case names; body none/string/bytes (up to 9 kB)/JSON value/typed JSON struct (unordered fields, f32, nested, renamed)/form/reader with known or unknown length, given through the dedicated body_* methods or through the generic body(); each method's own constructor or request(method, url); typed content type before or after the body; optional query struct; command API and capability API; non-trivial = >= 2 distinct header names with a multi-valued one, a body, and non-ASCII in URL or body; distinct = distinct case",
                     assumptions: vec![
                         "URLs are valid and header values ASCII (documented preconditions of the builders)".into(),
                         "expected URL = WHATWG serialisation by the url crate (the documented delegate); query pairs are compared after decoding".into(),
